@@ -207,6 +207,31 @@ def fresh_seq(st, n, elem_shape, hint, measure=None):
             bounds = [lf(*qs) >= shape.min_len] + ([lf(*qs) <= shape.max_len] if shape.max_len is not None else [])
             st.assume(z3.ForAll(qs, z3.And(*bounds)))
 
+            if getattr(shape, "measure", None) is not None:
+                # rows that carry the prefix sum of measure(cell) (as a top-level list with `measure` does): one more
+                # leaf function msum(row indices, k), its defining equation instantiated at every cell that is read
+                mf = z3.Function(f"{base}{path}#msum", *dom, z3.IntSort(), z3.IntSort())
+
+                def g(*idx, lf=lf, inner=inner, shape=shape, mf=mf):  # noqa: F811
+                    zi = zs(idx)
+
+                    def getter(j):
+                        v = inner(*idx, j)
+                        zj = zint(j)
+                        cur().assume(mf(*zi, zj + 1) == mf(*zi, zj) + zint(shape.measure(v)))
+                        return v
+
+                    def psum(k):
+                        cur().assume(mf(*zi, z3.IntVal(0)) == 0)
+                        return mk_int(mf(*zi, zint(k)))
+
+                    r = SSeq(mk_int(lf(*zi)), getter, shape.elem, psum, name=f"{base}{path}[]")
+                    r.measure = shape.measure
+                    r.row_id = (f"{base}{path}", tuple(zi))  # identity of the row (see below)
+                    return r
+
+                return g
+
             # rows of records (Tup) / variant records (Union of Tups): component prefix sums of each row, for the
             # plain-int components every alternative has -- one function per component taking the row's indices and
             # the position, defining equation instantiated wherever an element of the row is read (as for a flat list)
@@ -250,6 +275,9 @@ def fresh_seq(st, n, elem_shape, hint, measure=None):
                 return V.SCases([(t == k, gk(*idx)) for k, gk in enumerate(getters)])
 
             return g
+        if hasattr(shape, "seq_getter"):
+            # a shape that brings its own element model (pyvc.fmap.MapOf: dicts with symbolic keys as elements)
+            return shape.seq_getter(st, base, path, nidx)
         if isinstance(shape, S.Obj):
             parts = {k: mk(s_, f"{path}.{k}", nidx) for k, s_ in shape.fields.items()}
 
@@ -596,6 +624,15 @@ def comp_psum_unfold(s, c, q):
 def seq_concat(a, b):
     if isinstance(a, (tuple, list)) and isinstance(b, (tuple, list)):
         return tuple(a) + tuple(b)
+    # a sequence value with a structure of its own (contract-side model, e.g. the shard list of a canvas: explicit
+    # head shards + an unknown tail) says itself what a concatenation with it is: `concat_model(other, self_is_left)`
+    # returns the new sequence value, or NotImplemented to fall through to the generic rules below
+    for x, other, left in ((a, b, True), (b, a, False)):
+        h = getattr(x, "concat_model", None)
+        if h is not None:
+            r = h(other, left)
+            if r is not NotImplemented:
+                return r
     if hasattr(a, "fold_concat") and isinstance(b, (tuple, list)):
         # a sequence known only through a fold of its elements (contract-side model, e.g. the running join of a
         # list of canvases): appending concrete items steps the fold
@@ -648,6 +685,12 @@ def seq_slice1(s, lo, hi):
     """s[lo:hi] for normalised 0 <= lo, hi <= len (step 1); empty when hi <= lo."""
     if isinstance(s, (tuple, list)) and isinstance(lo, int) and isinstance(hi, int):
         return tuple(s[lo:hi])
+    h = getattr(s, "slice_model", None)
+    if h is not None:
+        # a structured sequence value (see seq_concat): `slice_model(lo, hi)` -> the slice, or NotImplemented
+        r = h(lo, hi)
+        if r is not NotImplemented:
+            return r
     s = to_sseq(s)
     n = imax(hi - lo, 0)
     psum = None
@@ -657,6 +700,8 @@ def seq_slice1(s, lo, hi):
             return s.psum(lo + k) - s.psum(lo)
 
     r = SSeq(n, lambda i: s.get(lo + i), s.shape, psum, "slice")
+    if getattr(s, "measure", None) is not None:
+        r.measure = s.measure  # (the slice of a list that carries sum-of-measure(element) carries it too: see seq_concat)
     for c, f in s.cpsum.items():
         r.cpsum[c] = lambda k, f=f: f(lo + k) - f(lo)
     if s.expand is not None and 1 in s.cpsum:
@@ -785,6 +830,14 @@ def row_value(v):
     then marked as moved: the model keeps rows by value, see fresh_seq), or an immutable sequence as is."""
     if isinstance(v, RowRef):
         raise Unsupported("storing a row of a nested list into another slot (row aliasing is not modelled)")
+    if isinstance(v, RowItem):
+        # `for row in a: b.append(row)`: CPython stores the SAME list object in b.  The by-value model stores its
+        # content; that is faithful as long as neither list has a row changed in place afterwards, so both lists are
+        # marked and any later in-place change of one of their rows (RowRef.seq setter) is rejected as Unsupported.
+        if isinstance(v.parent, LRef):
+            v.parent.rows_shared = True
+        v.shared = True
+        return v.seq
     if isinstance(v, LRef):
         content = v.seq
         v.seq = _MovedSeq()
@@ -818,6 +871,8 @@ class RowRef(LRef):
     @seq.setter
     def seq(self, new):
         self._check()
+        if getattr(self.parent, "rows_shared", False):
+            raise Unsupported("a row of a list that shares row objects with another list is changed in place (row aliasing is not modelled)")
         self.parent.seq = seq_update(self._stamp, self.index, tuple(new) if isinstance(new, list) else new)
         self._stamp = self.parent.seq
 
@@ -826,6 +881,35 @@ class RowRef(LRef):
 
     def __repr__(self):
         return f"RowRef({self.parent!r}[{self.index!r}])"
+
+
+class RowItem(LRef):
+    """A row reached by ITERATING over a nested list (`for row in grid[a:b]`): CPython hands out the list object
+    stored in the slot.  The by-value model presents it as a list with that content that must not be changed:
+    any assignment to `.seq` (which is all the list-mutation models and `row_value` do) is rejected, because a
+    change would have to show in the enclosing list (row aliasing is not modelled).  Reading, slicing,
+    concatenating (`row + [...]` builds a new list, as in CPython) are as for any list.
+    Cross-check against CPython: spec/xcheck_cases.py x_generator (iterates over rows of a nested list)."""
+
+    def __init__(self, content, parent=None):
+        self._content = content
+        self.parent = parent  # the list iterated over (marked when this row is stored into another list)
+        self.shared = False
+        self.serial = 0
+
+    @property
+    def seq(self):
+        return self._content
+
+    @seq.setter
+    def seq(self, new):
+        raise Unsupported("a row reached by iterating over a nested list is changed / stored elsewhere (row aliasing is not modelled)")
+
+    def snapshot(self):
+        return LRef(self._content)
+
+    def __repr__(self):
+        return "RowItem(...)"
 
 
 class DRef(Sym):
